@@ -12,6 +12,7 @@ import Complgen.Spec.Den
 import Complgen.Spec.Warn
 import Complgen.Spec.Complete
 import Complgen.Proofs.SpecAuto
+import Complgen.Proofs.Ladder
 import Complgen.Gen.Chains
 import Complgen.Gen.Tables
 import Complgen.Gen.Diag
@@ -237,6 +238,11 @@ def handle (line : String) : String :=
       let f := fun (l : List String) => " ".intercalate (sortStrings (l.map Hex.encode))
       s!"ok {f (Spec.undefinedNames sh g)} | {f (Spec.unusedNames g)} | {f (Spec.unusedSpecNames sh g)}"
     | _, _ => "bad-op"
+  | "pp" :: rest =>
+    -- the printer of `Proofs/Ladder.lean` (the one `ladder_roundtrip` is about) on the first call variant
+    match readGrammar (" ".intercalate rest) with
+    | some (Stmt.call n _ e :: _) => "ok " ++ Hex.encode (n ++ " " ++ String.ofList (Parse.pp 0 e) ++ ";")
+    | _ => "bad-op"
   | ["parse", h] =>
     match Hex.decode h with
     | some src =>
